@@ -17,6 +17,10 @@ def cyclic_programs(ctx, n):
         k = rng.randint(1, 4)
         cls = names[:k]
         lines = []
+        vault = rng.random() < 0.5
+        if vault:
+            # visibility checks walk the ancestors of the calling class too (protected: is the caller a descendant of the owner?)
+            lines += ["class Vault", "  %s" % rng.choice(["protected", "protected", "private"]), "  def code; 1; end", "end"]
         for i, c in enumerate(cls):
             parent = cls[(i + 1) % k]
             kind = rng.choice(["class", "class", "module"])
@@ -28,11 +32,17 @@ def cyclic_programs(ctx, n):
                 lines.append("  def m%d; %s; end" % (i, rng.choice(["1", "@v", "self.q", "zz"])))
             if rng.random() < 0.3:
                 lines.append("  @@c = 1\n  X = 2")
+            if vault and kind == "class" and (i == 0 or rng.random() < 0.4):
+                lines.append("  def pk%d(other); other.code; end" % i)
+            if rng.random() < 0.2:
+                lines.append("  protected\n  def pr%d; 2; end\n  public\n  def cmp%d(o); o.pr%d; end" % (i, i, i))
             lines.append("end")
         c0 = cls[0]
-        lines.append("o = %s.new" % c0 if lines[0].startswith("class") else "o = 1")
+        lines.append("o = %s.new" % c0 if lines[4 if vault else 0].startswith("class") else "o = 1")
         lines.append("o.%s" % rng.choice(["nope", "m0", "m1", "to_s"]))
         lines.append("%s.%s" % (c0, rng.choice(["nope", "new", "m0"])))
+        if vault and lines[4 if vault else 0].startswith("class"):
+            lines.append("o.pk0(Vault.new)")
         lines.append("@x = 1\nx = @y")
         out.append("\n".join(lines) + "\n")
     return out
